@@ -260,6 +260,9 @@ Definition type_of_id (s : str) : option gotype :=
   else if str_eqb s (STR "MyIntB") then Some (mk_t KInt 13%N false) else if str_eqb s (STR "MyInt64B") then Some (mk_t KInt64 14%N false)
   else if str_eqb s (STR "MyFloat64B") then Some (mk_t KFloat64 15%N false) else if str_eqb s (STR "MyBoolB") then Some (mk_t KBool 16%N false)
   else if str_eqb s (STR "MyStringB") then Some (mk_t KString 17%N false)
+  (* defined types of a value kind that also implement error (they have an Error() method) *)
+  else if str_eqb s (STR "MyErrInt") then Some (mk_t KInt 18%N true) else if str_eqb s (STR "MyErrString") then Some (mk_t KString 19%N true)
+  else if str_eqb s (STR "MyErrFloat64") then Some (mk_t KFloat64 20%N true) else if str_eqb s (STR "MyErrBool") then Some (mk_t KBool 21%N true)
   else if str_eqb s (STR "MyErr") then Some (mk_t KStruct 10%N true) else if str_eqb s (STR "MyStruct") then Some (mk_t KStruct 11%N false)
   else if str_eqb s (STR "[]int") then Some (mk_t KSlice 0%N false) else if str_eqb s (STR "*int") then Some (mk_t KPtr 0%N false)
   else if str_eqb s (STR "chan error") then Some (mk_chan 0%N DBoth true true)
